@@ -34,7 +34,7 @@ def arith(ip, opn, a, b):
     # Struct operands (abstract sympy objects): delegated to their model
     for s in (a, b):
         if isinstance(s, Struct):
-            m = getattr(C, "STRUCT_ARITH", {}).get(s.cls)
+            m = C.STRUCT_ARITH.get(s.cls)
             if m is None:
                 raise Unsupported(f"arithmetic on {s.cls}")
             return m(ip, opn, a, b)
@@ -144,7 +144,7 @@ def inplace(ip, opn, cur, rhs):
                 cur.items.append(x)
         return True, cur
     if isinstance(cur, Struct):
-        m = getattr(C, "STRUCT_INPLACE", {}).get(cur.cls)
+        m = C.STRUCT_INPLACE.get(cur.cls)
         if m:
             return m(ip, opn, cur, rhs)
     if isinstance(cur, SymSeq) and cur.mutable and opn == "Add":
@@ -170,7 +170,8 @@ def seq_arith(ip, opn, a, b):
         sa, sb = to_symseq(ip, a, like=b), to_symseq(ip, b, like=a)
         la, lb = term(sa.len), term(sb.len)
         k = z3.Int("k!c")
-        arrs = [z3.Lambda([k], z3.If(k < la, x[k], y[k - la]))
+        arrs = [defined_array(ip, ("cat", x.get_id(), y.get_id(), la.get_id()), x.sort(),
+                              lambda k, x=x, y=y: z3.If(k < la, x[k], y[k - la]))
                 for x, y in zip(sa.arrs, sb.arrs)]
         return SymSeq(wrap(la + lb), arrs, sa.shape)
     raise RaiseEx("TypeError", "concatenation of different sequence types")
@@ -238,6 +239,25 @@ def to_symseq(ip, v, like=None):
     return SymSeq(len(items), arrs, like.shape)
 
 
+USE_LAMBDA = True
+
+
+def defined_array(ip, key, sort, body):
+    """array defined pointwise: either a z3 Lambda or (default) a fresh array
+    constant with the quantified definitional axiom  forall k. A[k] = body(k)
+    (memoised per path so that equal definitions give the same constant)."""
+    k = z3.Int("k!d")
+    if USE_LAMBDA:
+        return z3.Lambda([k], body(k))
+    cache = ip.vc.ghost.setdefault("_defined_arrays", {})
+    if key in cache:
+        return cache[key]
+    arr = ip.vc.fresh("def_" + key[0], sort)
+    ip.vc.assume(z3.ForAll([k], arr[k] == body(k), patterns=[arr[k]]))
+    cache[key] = arr
+    return arr
+
+
 def seq_slice(ip, seq, lo, hi):
     n = term(seq.len)
     lo_t = z3.IntVal(0) if lo is None else term(lo)
@@ -248,8 +268,11 @@ def seq_slice(ip, seq, lo, hi):
         return z3.If(t < 0, z3.IntVal(0), z3.If(t > n, n, t))
     lo_t, hi_t = norm(lo_t), norm(hi_t)
     length = z3.If(hi_t > lo_t, hi_t - lo_t, z3.IntVal(0))
-    k = z3.Int("k!s")
-    arrs = [z3.Lambda([k], a[k + lo_t]) for a in seq.arrs]
+    lo_s = z3.simplify(lo_t)
+    if z3.is_int_value(lo_s) and lo_s.as_long() == 0:
+        return SymSeq(wrap(length), list(seq.arrs), seq.shape)
+    arrs = [defined_array(ip, ("slice", a.get_id(), lo_s.get_id()), a.sort(),
+                          lambda k, a=a: a[k + lo_s]) for a in seq.arrs]
     return SymSeq(wrap(length), arrs, seq.shape)
 
 
@@ -286,7 +309,7 @@ def make_symiter(ip, it):
             return None
         raise Unsupported("zip over symbolic sequences")
     if isinstance(it, Struct):
-        mk = getattr(C, "STRUCT_SYMITER", {}).get(it.cls)
+        mk = C.STRUCT_SYMITER.get(it.cls)
         if mk:
             return mk(ip, it)
     if isinstance(it, SymSet):
@@ -388,7 +411,7 @@ def subscript(ip, obj, idx):
         if isinstance(obj, SymSeq):
             return seq_slice(ip, obj, lo, hi)
         if isinstance(obj, Struct):
-            m = getattr(C, "STRUCT_SUBSCRIPT", {}).get(obj.cls)
+            m = C.STRUCT_SUBSCRIPT.get(obj.cls)
             if m:
                 return m(ip, obj, idx)
         raise Unsupported(f"slice of {type(obj).__name__}")
@@ -445,7 +468,7 @@ def subscript(ip, obj, idx):
         v, _ = unflatten(ts, obj.shape)
         return v
     if isinstance(obj, Struct):
-        m = getattr(C, "STRUCT_SUBSCRIPT", {}).get(obj.cls)
+        m = C.STRUCT_SUBSCRIPT.get(obj.cls)
         if m:
             return m(ip, obj, idx)
     if isinstance(obj, (ClassRef, ExtRef)):
@@ -492,7 +515,7 @@ def store_subscript(ip, obj, idx, v):
         obj.arrs = [z3.Store(a, i, t) for a, t in zip(obj.arrs, ts)]
         return
     if isinstance(obj, Struct):
-        m = getattr(C, "STRUCT_STORE", {}).get(obj.cls)
+        m = C.STRUCT_STORE.get(obj.cls)
         if m:
             return m(ip, obj, idx, v)
     raise Unsupported(f"subscript store on {type(obj).__name__}")
@@ -527,6 +550,12 @@ def get_attribute(ip, obj, name):
     vc = ip.vc
     if isinstance(obj, Sym) and obj.schema:
         sch = C.SCHEMAS[obj.schema]
+        if sch.invariant is not None:
+            seen = vc.ghost.setdefault("_inv_seen", set())
+            ikey = (sch.name, obj.t.get_id())
+            if ikey not in seen:
+                seen.add(ikey)
+                vc.assume(sch.invariant(obj.t))
         if name in sch.attrs:
             spec = sch.attrs[name]
             if spec[0] == "enum":
@@ -541,7 +570,7 @@ def get_attribute(ip, obj, name):
     if isinstance(obj, Struct):
         if name in obj.f:
             return obj.f[name]
-        am = getattr(C, "STRUCT_ATTR", {}).get((obj.cls, name))
+        am = C.STRUCT_ATTR.get((obj.cls, name))
         if am:
             return am(ip, obj)
         return BoundMethod(obj, name)
@@ -578,7 +607,7 @@ def get_attribute(ip, obj, name):
                 if "classmethod" in decos:
                     return FuncRef(mk, self_obj=obj)
                 return FuncRef(mk)
-        am = getattr(C, "CLASS_ATTR", {}).get((obj.key, name))
+        am = C.CLASS_ATTR.get((obj.key, name))
         if am is not None:
             return am
         raise Unsupported(f"class attribute {obj.key}.{name}")
@@ -625,7 +654,7 @@ def call_method(ip, obj, name, args, kwargs):
     if isinstance(obj, Sym) and z3.is_string(obj.t):
         return symstr_method(ip, obj, name, args, kwargs)
     if isinstance(obj, Struct):
-        m = getattr(C, "STRUCT_METHODS", {}).get((obj.cls, name))
+        m = C.STRUCT_METHODS.get((obj.cls, name))
         if m:
             return m(ip, obj, args, kwargs)
         raise Unsupported(f"method {name} of abstract {obj.cls}")
@@ -926,7 +955,7 @@ def b_len(ip, args, kwargs):
     if isinstance(v, Sym) and z3.is_string(v.t):
         return wrap(z3.Length(v.t))
     if isinstance(v, Struct):
-        m = getattr(C, "STRUCT_LEN", {}).get(v.cls)
+        m = C.STRUCT_LEN.get(v.cls)
         if m:
             return m(ip, v)
     raise Unsupported(f"len of {type(v).__name__}")
@@ -976,7 +1005,7 @@ def class_is_subclass(ip, name_or_key, target):
         return True
     if name_or_key in ip.src.classes:
         return tshort in ip.src.class_bases(name_or_key)
-    sub = getattr(C, "SUBCLASS", {})
+    sub = C.SUBCLASS
     return tshort in sub.get(name_or_key.split(":")[-1], ())
 
 
@@ -1012,14 +1041,14 @@ def b_isinstance(ip, args, kwargs):
         if "class" in sch.attrs:
             # the concrete class is an enum attribute of the abstract object
             cname = ip.vc.concretize(sch.attrs["class"][1](v.t), sch.attrs["class"][2])
-            return short == cname or short in getattr(C, "SUBCLASS", {}).get(cname, ())
+            return short == cname or short in C.SUBCLASS.get(cname, ())
         return short in sch.classes
     if isinstance(v, Struct):
-        m = getattr(C, "STRUCT_ISINSTANCE", {}).get(v.cls)
+        m = C.STRUCT_ISINSTANCE.get(v.cls)
         if m:
             return m(ip, v, cls)
         short = (cls.key if isinstance(cls, ClassRef) else getattr(cls, "dotted", "")).split(":")[-1].split(".")[-1]
-        return short == v.cls or short in getattr(C, "SUBCLASS", {}).get(v.cls, ())
+        return short == v.cls or short in C.SUBCLASS.get(v.cls, ())
     if isinstance(v, Inst):
         return class_is_subclass(ip, v.cls, cls)
     if isinstance(cls, (ClassRef, ExtRef)):
